@@ -18,6 +18,8 @@ RULE = ("complete enumeration of (response class, outcome) with outcome in {None
         "plus (bitmap class, bit name, value), (class, illegal constructor argument) and (command, answer 255) "
         "for the commands whose answer the standard defines as level-or-MASK / as a plain number")
 ASSUMPTIONS = [
+    "derived accessors of response classes (DERIVED table: counts, control type, error summary, fade time/rate, emergency "
+    "mode, the two numeric classes with units in their text) are judged against the meaning their docstrings give to the byte",
     "MASK_AWARE / PLAIN_NUMBER command lists are transcribed from IEC 62386-102/-103/-202 answer definitions; only "
     "commands whose answer definition is unambiguous are pinned",
     "kind of a response class is taken from its base class (YesNoResponse, NumericResponseMask, NumericResponse, "
@@ -77,6 +79,8 @@ def run_case(case):
     command, frame, exc = _load()
     if case.get("op") == "association":
         return association_case(case)
+    if case.get("op") == "derived":
+        return derived_case(case)
     classes = response_classes()
     if case["cls"] not in classes:
         return [("C06:response-class-missing", "%s is no longer a response of any command" % case["cls"])]
@@ -361,6 +365,63 @@ def association_case(case):
     return out
 
 
+DERIVED = {
+    # response class -> [(attribute or "str", reference function of the clean 8-bit value)], from the class docstrings
+    # and IEC 62386-102 (status, fade time/rate), -202 (emergency mode), -206 (output level), -207 table 1, -209 11.3.4
+    "QueryColourTypeFeaturesResponse": [("primary_n", lambda v: (v >> 2) & 7), ("RGBWAF_channels", lambda v: (v >> 5) & 7)],
+    "QueryRBGWAFControlResponse": [("control_type", lambda v: ["channel control", "colour control", "normalised colour control",
+                                                                "(error)"][(v >> 6) & 3])],
+    "QueryStatusResponse": [("error", lambda v: bool(v & 0b01000011))],
+    "QueryFadeTimeAndRateResponse": [("fade_time", lambda v: v >> 4), ("fade_rate", lambda v: v & 15)],
+    "QueryEmergencyModeResponse": [("mode", lambda v: ",".join(
+        n for i, n in enumerate(["rest mode", "normal mode", "emergency mode", "extended emergency mode", "function test",
+                                 "duration test"]) if (v >> i) & 1))],
+    "FastFadeTimeResponse": [("str", lambda v: "shortest" if v == 0 else "out of range (%d)" % v if v > 27 else "%d ms" % (v * 25))],
+    "OutputLevelResponse": [("str", lambda v: "10.16V or more" if v == 254 else "unknown" if v == 255 else "%s V" % (v * 0.04))],
+}
+
+
+def derived_case(case):
+    """case: {"op": "derived", "cls": key of response_classes(), "v": 0..255}"""
+    command, frame, exc = _load()
+    r_cls = response_classes()[case["cls"]][0]
+    v = case["v"]
+    out = []
+    r = r_cls(frame.BackwardFrame(v))
+    for attr, ref in DERIVED[r_cls.__name__]:
+        try:
+            got = str(r) if attr == "str" else getattr(r, attr)
+        except Exception as e:  # noqa
+            got = "raised %r" % (e,)
+        exp = ref(v)
+        if got != exp or (isinstance(exp, bool) and bool(got) is not exp) or (isinstance(exp, int) and not isinstance(exp, bool) and isinstance(got, bool)):
+            if isinstance(exp, bool) and not isinstance(got, str) and bool(got) is exp:
+                continue
+            out.append(("C06:derived-field:%s.%s" % (r_cls.__name__, attr), "%s(%d).%s is %r, the documented meaning of the "
+                        "byte gives %r" % (r_cls.__name__, v, attr, got, exp)))
+    return out
+
+
+def _derived_shard(_):
+    res = Result()
+    res.exhaustive = True
+    classes = response_classes()
+    have = {r.__name__: key for key, (r, users) in classes.items()}
+    for name in sorted(DERIVED):
+        if name not in have:
+            res.violation("C06:response-class-missing", {"op": "derived", "cls": name}, "%s is no longer a response of any command" % name)
+            continue
+        for v in range(256):
+            case = {"op": "derived", "cls": have[name], "v": v}
+            res.count()
+            res.nontrivial()
+            for sig, msg in derived_case(case):
+                res.violation(sig, case, msg)
+        res.label("derived-fields:" + name, 256)
+    res.sample({"op": "derived", "cls": have.get("QueryStatusResponse", ""), "v": 0x42}, cls="derived fields")
+    return res
+
+
 def _assoc_shard(_):
     res = Result()
     res.exhaustive = True
@@ -380,6 +441,8 @@ def _assoc_shard(_):
 def _shard(arg):
     if arg is None:
         return _assoc_shard(arg)
+    if arg == "derived":
+        return _derived_shard(arg)
     name = arg
     res = Result()
     res.exhaustive = True
@@ -408,5 +471,5 @@ def _shard(arg):
 
 def run(ctx):
     names = list(response_classes())
-    ctx.pmap(_shard, names + [None])
+    ctx.pmap(_shard, names + [None, "derived"])
     ctx.result.extra["response_classes"] = len(names)
